@@ -457,3 +457,66 @@ def multisig_redeem(m, pubkeys):
     for pk in pubkeys:
         r = r + push_data(pk)
     return r + bytes([80 + len(pubkeys), 0xae])
+
+
+# --- signature and lock-time opcodes ------------------------------------------------------------------------------------
+
+def op_checksig(st, valid):
+    """<sig> <pubkey> OP_CHECKSIG: valid(sig, pubkey) is the signature check of the spending transaction (abstract)"""
+    if len(st) < 2:
+        return None
+    return st[:-2] + [_b(valid(st[-2], st[-1]))]
+
+
+def op_checksigverify(st, valid):
+    r = op_checksig(st, valid)
+    if r is None:
+        return None
+    return op_verify(r)
+
+
+LOCKTIME_THRESHOLD = 500000000
+
+
+def op_checklocktimeverify(st, tx_locktime, sequence):
+    """BIP65: fail if stack empty, operand negative (operands up to 5 bytes), different kind (height/time) than nLockTime,
+    greater than nLockTime, or the input is final (sequence 0xffffffff).  The stack is left unchanged."""
+    if len(st) < 1:
+        return None
+    if len(st[-1]) > 5:
+        return None
+    n = script_num_decode(st[-1])
+    if n < 0:
+        return None
+    if not ((tx_locktime < LOCKTIME_THRESHOLD and n < LOCKTIME_THRESHOLD) or (tx_locktime >= LOCKTIME_THRESHOLD and n >= LOCKTIME_THRESHOLD)):
+        return None
+    if n > tx_locktime:
+        return None
+    if sequence == 0xffffffff:
+        return None
+    return st
+
+
+def op_checksequenceverify(st, tx_version, sequence):
+    """BIP112: fail if stack empty, operand negative; if the disable flag (bit 31) of the operand is clear: fail if tx version < 2,
+    the input's sequence has the disable flag set, the type flags (bit 22) differ, or the masked operand exceeds the masked sequence."""
+    if len(st) < 1:
+        return None
+    if len(st[-1]) > 5:
+        return None
+    n = script_num_decode(st[-1])
+    if n < 0:
+        return None
+    if n & (1 << 31):
+        return st
+    if tx_version < 2:
+        return None
+    if sequence & (1 << 31):
+        return None
+    mask = (1 << 22) | 0xffff
+    a, b = n & mask, sequence & mask
+    if not ((a < (1 << 22) and b < (1 << 22)) or (a >= (1 << 22) and b >= (1 << 22))):
+        return None
+    if a > b:
+        return None
+    return st
